@@ -5,6 +5,7 @@ import (
 	"go/types"
 	"sort"
 	"strconv"
+	"strings"
 
 	"golang.org/x/tools/go/ssa"
 )
@@ -146,8 +147,413 @@ func c15sortedFields(m map[*types.Var]bool) []*types.Var {
 }
 
 // ---------------------------------------------------------------------------
-// backward slice of a value inside one function: data operands, phi inputs, stores into local cells
-// and buffers; plus the fields that *control* a phi of the slice (if f { x |= bit } idiom).
+// frames: the exporter / importer and the same-package helpers and closures they delegate to. A rule that
+// looks for a write to the blob buffer, a read of the blob, a refusal test or a field store follows static
+// calls into helpers with the helper's parameters (and a closure's free variables) bound to the values of
+// the calling frame, so that extracting a step into a helper, or inlining one, does not change what is seen.
+
+type c15frame struct {
+	fn     *ssa.Function
+	site   ssa.CallInstruction // the call in parent.fn through which fn is entered (nil at the root)
+	parent *c15frame
+}
+
+func (fr *c15frame) depth() int {
+	n := 0
+	for f := fr; f.parent != nil; f = f.parent {
+		n++
+	}
+	return n
+}
+
+// rootSite: the call in the root function through which this frame is (transitively) entered.
+func (fr *c15frame) rootSite() ssa.CallInstruction {
+	f := fr
+	for f.parent != nil && f.parent.parent != nil {
+		f = f.parent
+	}
+	return f.site
+}
+
+// bind: the value of the calling frame that parameter / free variable v of fr.fn stands for.
+func (fr *c15frame) bind(v ssa.Value) (ssa.Value, bool) {
+	if fr.parent == nil || fr.site == nil {
+		return nil, false
+	}
+	switch x := v.(type) {
+	case *ssa.Parameter:
+		args := fr.site.Common().Args
+		for i, p := range fr.fn.Params {
+			if p == x && i < len(args) {
+				return args[i], true
+			}
+		}
+	case *ssa.FreeVar:
+		if mc, ok := fr.site.Common().Value.(*ssa.MakeClosure); ok {
+			for i, fv := range fr.fn.FreeVars {
+				if fv == x && i < len(mc.Bindings) {
+					return mc.Bindings[i], true
+				}
+			}
+		}
+	}
+	return nil, false
+}
+
+// child: the frame of the static same-package callee of call (nil when there is none or the chain is too deep
+// or recursive).
+func (e *c15env) child(fr *c15frame, call ssa.CallInstruction) *c15frame {
+	g := calleeFn(call)
+	if g == nil || g.Blocks == nil || fnPkg(g) != e.pkg || fr.depth() >= 3 {
+		return nil
+	}
+	if _, isGo := call.(*ssa.Go); isGo {
+		return nil
+	}
+	for f := fr; f != nil; f = f.parent {
+		if f.fn == g {
+			return nil
+		}
+	}
+	return &c15frame{fn: g, site: call, parent: fr}
+}
+
+// cellOf: the local cell (Alloc of some frame on the chain) that address addr denotes: an Alloc, a closure's
+// free variable bound to one, or a pointer parameter handed one.
+func (fr *c15frame) cellOf(addr ssa.Value) ssa.Value {
+	switch a := addr.(type) {
+	case *ssa.Alloc:
+		return a
+	case *ssa.FreeVar, *ssa.Parameter:
+		if up, ok := fr.bind(a); ok {
+			return fr.parent.cellOf(up)
+		}
+	}
+	return nil
+}
+
+// c15dep: does v (of frame fr) depend on a value satisfying pred, looking through helper results, helper
+// parameters (the argument of the calling frame) and captured variables?
+func (c *Ctx) c15dep(fr *c15frame, v ssa.Value, pred func(ssa.Value) bool, depth int) bool {
+	if depth > 6 || fr == nil {
+		return false
+	}
+	return c.mustDependDeep(fr.fn, v, func(x ssa.Value) bool {
+		if pred(x) {
+			return true
+		}
+		if up, ok := fr.bind(x); ok {
+			return c.c15dep(fr.parent, up, pred, depth+1)
+		}
+		return false
+	})
+}
+
+// ---------------------------------------------------------------------------
+// facts on control-flow edges, followed through local booleans, predicates and error-returning helpers
+
+// c15test: does atom a (evaluated in frame fr) establish the fact when it is true (onTrue) / false (onFalse)?
+type c15test func(fr *c15frame, a Atom) (onTrue, onFalse bool)
+
+// factCuts returns the edges of fr.fn on which the fact holds: branches whose condition is a matching atom;
+// branches on a boolean phi, per incoming value ("ok := a && b; if !ok": cut only for paths that enter
+// through the predecessor that evaluated the matching atom); branches on a same-package predicate every
+// matching return of which establishes the fact; nil-error edges of same-package helpers every success
+// return of which passes such an edge.
+func (e *c15env) factCuts(p *Prog, fr *c15frame, test c15test, depth int) *Cuts {
+	cuts := newCuts()
+	fn := fr.fn
+	var addCond func(v ssa.Value, t, f Edge, via *ssa.BasicBlock, d int)
+	addCond = func(v ssa.Value, t, f Edge, via *ssa.BasicBlock, d int) {
+		if d > 3 {
+			return
+		}
+		for {
+			u, ok := v.(*ssa.UnOp)
+			if !ok || u.Op != token.NOT {
+				break
+			}
+			v, t, f = u.X, f, t
+		}
+		add := func(ed Edge) {
+			if via != nil {
+				cuts.AddVia(via, ed)
+			} else {
+				cuts.AddEdges(ed)
+			}
+		}
+		switch x := v.(type) {
+		case *ssa.Phi:
+			if via == nil && x.Block() == t.From {
+				for i, ev := range x.Edges {
+					if _, isC := ev.(*ssa.Const); !isC {
+						addCond(ev, t, f, x.Block().Preds[i], d+1)
+					}
+				}
+			}
+			return
+		case *ssa.Call:
+			if ch := e.child(fr, x); ch != nil && depth > 0 && e.sameStream(fr, x) {
+				if e.boolHelper(p, ch, true, test, depth-1) {
+					add(t)
+				}
+				if e.boolHelper(p, ch, false, test, depth-1) {
+					add(f)
+				}
+			}
+		}
+		onT, onF := test(fr, condAtom(v))
+		if onT {
+			add(t)
+		}
+		if onF {
+			add(f)
+		}
+	}
+	for _, b := range fn.Blocks {
+		if ifi := blockIf(b); ifi != nil && len(b.Succs) == 2 && b.Succs[0] != b.Succs[1] {
+			addCond(ifi.Cond, Edge{b, 0}, Edge{b, 1}, nil, 0)
+		}
+	}
+	if depth > 0 {
+		allInstrs(fn, func(_ *ssa.BasicBlock, _ int, in ssa.Instruction) {
+			call, ok := in.(*ssa.Call)
+			if !ok || len(errResults(call)) == 0 {
+				return
+			}
+			ch := e.child(fr, call)
+			if ch == nil || !e.sameStream(fr, call) || !e.onSuccess(p, ch, test, depth-1) {
+				return
+			}
+			if succ, _, checked := callErrEdges(fn, call); checked {
+				cuts.AddEdges(succ...)
+			} else {
+				only := true
+				for _, ev := range errResults(call) {
+					for _, r := range *ev.Referrers() {
+						switch r.(type) {
+						case *ssa.Return, *ssa.DebugRef:
+						default:
+							only = false
+						}
+					}
+				}
+				if only {
+					cuts.AddInstrs(call) // "return helper(...)": succeeds only if the helper did
+				}
+			}
+		})
+	}
+	return cuts
+}
+
+// sameStream: every *Stream the helper is handed is the calling function's own (a parameter of the same
+// type): what the helper tests, it tests about the stream the caller's facts are about.
+func (e *c15env) sameStream(fr *c15frame, call ssa.CallInstruction) bool {
+	for _, a := range call.Common().Args {
+		pt, ok := a.Type().Underlying().(*types.Pointer)
+		if !ok {
+			continue
+		}
+		nt, ok := pt.Elem().(*types.Named)
+		if !ok || nt.Obj().Pkg() != e.pkg || nt.Obj().Name() != "Stream" {
+			continue
+		}
+		if _, isParam := a.(*ssa.Parameter); !isParam {
+			return false
+		}
+	}
+	return true
+}
+
+// onSuccess: every (possibly) success return of fr.fn passes an edge on which the fact holds.
+func (e *c15env) onSuccess(p *Prog, fr *c15frame, test c15test, depth int) bool {
+	tg := p.successTargets(fr.fn)
+	if len(tg) == 0 {
+		return false
+	}
+	cuts := e.factCuts(p, fr, test, depth)
+	for _, t := range tg {
+		if findPath(entryPoint(fr.fn), t.Target(), cuts) != nil {
+			return false
+		}
+	}
+	return true
+}
+
+// boolHelper: whenever predicate fr.fn returns pol the fact holds: every return whose value may be pol is
+// preceded by an edge that establishes it, or returns a condition that itself does.
+func (e *c15env) boolHelper(p *Prog, fr *c15frame, pol bool, test c15test, depth int) bool {
+	fn := fr.fn
+	res := fn.Signature.Results()
+	if res.Len() != 1 {
+		return false
+	}
+	if b, ok := res.At(0).Type().Underlying().(*types.Basic); !ok || b.Info()&types.IsBoolean == 0 {
+		return false
+	}
+	cuts := e.factCuts(p, fr, test, depth)
+	any := false
+	for _, ret := range c15rets(fn) {
+		type tv struct {
+			v    ssa.Value
+			pred *ssa.BasicBlock
+		}
+		var tvs []tv
+		if phi, ok := ret.Results[0].(*ssa.Phi); ok && phi.Block() == ret.Block() {
+			for i, ev := range phi.Edges {
+				tvs = append(tvs, tv{ev, phi.Block().Preds[i]})
+			}
+		} else {
+			tvs = append(tvs, tv{ret.Results[0], nil})
+		}
+		for _, x := range tvs {
+			if bv, isC := constBool(x.v); isC {
+				if bv != pol {
+					continue
+				}
+			} else {
+				v, want := x.v, pol
+				for {
+					u, ok := v.(*ssa.UnOp)
+					if !ok || u.Op != token.NOT {
+						break
+					}
+					v, want = u.X, !want
+				}
+				onT, onF := test(fr, condAtom(v))
+				if (want && onT) || (!want && onF) {
+					any = true
+					continue
+				}
+			}
+			any = true
+			if findPath(entryPoint(fn), Target{Instr: ret, Pred: x.pred}, cuts) != nil {
+				return false
+			}
+		}
+	}
+	return any
+}
+
+func c15rets(fn *ssa.Function) []*ssa.Return {
+	var out []*ssa.Return
+	for _, b := range fn.Blocks {
+		if len(b.Instrs) > 0 {
+			if r, ok := b.Instrs[len(b.Instrs)-1].(*ssa.Return); ok {
+				out = append(out, r)
+			}
+		}
+	}
+	return out
+}
+
+// mustPass: every success return of the root function passes an edge on which the fact holds; otherwise a
+// witness path.
+func (c *Ctx) c15mustPass(e *c15env, fn *ssa.Function, test c15test) (bool, []*ssa.BasicBlock, *ssa.Return) {
+	cuts := e.factCuts(c.Prog, &c15frame{fn: fn}, test, 3)
+	for _, t := range c.successTargets(fn) {
+		if p := findPath(entryPoint(fn), t.Target(), cuts); p != nil {
+			return false, p, t.Ret
+		}
+	}
+	return true, nil, nil
+}
+
+// c15fieldOn: the atom establishes that field f (of any base) is true / non-nil.
+func c15fieldOn(f *types.Var) c15test {
+	return func(_ *c15frame, a Atom) (bool, bool) {
+		switch a.Op {
+		case token.ILLEGAL:
+			if readsField(a.X, f) {
+				return !a.Neg, a.Neg
+			}
+		case token.EQL, token.NEQ:
+			var other ssa.Value
+			if readsField(a.X, f) {
+				other = a.Y
+			} else if readsField(a.Y, f) {
+				other = a.X
+			} else {
+				return false, false
+			}
+			if !isNilConst(other) {
+				return false, false
+			}
+			eqNil := a.Op == token.EQL
+			if a.Neg {
+				eqNil = !eqNil
+			}
+			return !eqNil, eqNil
+		}
+		return false, false
+	}
+}
+
+// c15fieldClean: the atom establishes that field f is false, nil, 0 or of length 0.
+func c15fieldClean(f *types.Var) c15test {
+	on := c15fieldOn(f)
+	return func(fr *c15frame, a Atom) (bool, bool) {
+		if t, fl := on(fr, a); t || fl {
+			return fl, t
+		}
+		if a.Op == token.ILLEGAL {
+			return false, false
+		}
+		x := stripConv(a.X)
+		if l, ok := c15isBuiltin(x, "len"); ok {
+			x = l.Call.Args[0]
+		} else if isNilConst(a.Y) {
+			return false, false
+		}
+		if !readsField(x, f) {
+			return false, false
+		}
+		k, isC := constInt(a.Y)
+		if !isC || k != 0 {
+			return false, false
+		}
+		var zeroOnTrue bool
+		switch a.Op {
+		case token.EQL, token.LEQ:
+			zeroOnTrue = true
+		case token.NEQ, token.GTR:
+			zeroOnTrue = false
+		default:
+			return false, false
+		}
+		if a.Neg {
+			zeroOnTrue = !zeroOnTrue
+		}
+		return zeroOnTrue, !zeroOnTrue
+	}
+}
+
+// c15lenIs: the atom establishes len(s.f) == k.
+func c15lenIs(f *types.Var, k int64) c15test {
+	return func(_ *c15frame, a Atom) (bool, bool) {
+		if a.Op != token.NEQ && a.Op != token.EQL {
+			return false, false
+		}
+		call, ok := c15isBuiltin(a.X, "len")
+		if !ok || !readsField(call.Call.Args[0], f) {
+			return false, false
+		}
+		if kk, isC := constInt(a.Y); !isC || kk != k {
+			return false, false
+		}
+		eq := a.Op == token.EQL
+		if a.Neg {
+			eq = !eq
+		}
+		return eq, !eq
+	}
+}
+
+// ---------------------------------------------------------------------------
+// backward slice of a value: data operands, phi inputs, stores into local cells and buffers; plus the fields
+// that *control* a phi of the slice (if f { x |= bit } idiom). The slice continues through the results of
+// same-package helpers (what they return) and through helper parameters (the argument of the calling frame).
 
 type c15sliceInfo struct {
 	seen     map[ssa.Value]bool
@@ -157,7 +563,10 @@ type c15sliceInfo struct {
 }
 
 func (e *c15env) c15slice(fn *ssa.Function, v ssa.Value) *c15sliceInfo {
-	si := &c15sliceInfo{map[ssa.Value]bool{}, map[*types.Var]bool{}, map[*types.Var]*ssa.Phi{}, map[*types.Var]int64{}}
+	return e.c15sliceFr(&c15frame{fn: fn}, v)
+}
+
+func c15writersOf(fn *ssa.Function) map[ssa.Value][]ssa.Value {
 	writers := map[ssa.Value][]ssa.Value{}
 	allInstrs(fn, func(_ *ssa.BasicBlock, _ int, in ssa.Instruction) {
 		switch x := in.(type) {
@@ -181,8 +590,25 @@ func (e *c15env) c15slice(fn *ssa.Function, v ssa.Value) *c15sliceInfo {
 			}
 		}
 	})
-	var walk func(v ssa.Value, d int)
-	walk = func(v ssa.Value, d int) {
+	return writers
+}
+
+func (e *c15env) c15sliceFr(root *c15frame, v ssa.Value) *c15sliceInfo {
+	si := &c15sliceInfo{map[ssa.Value]bool{}, map[*types.Var]bool{}, map[*types.Var]*ssa.Phi{}, map[*types.Var]int64{}}
+	if root == nil {
+		return si
+	}
+	wcache := map[*ssa.Function]map[ssa.Value][]ssa.Value{}
+	writers := func(fn *ssa.Function) map[ssa.Value][]ssa.Value {
+		if w, ok := wcache[fn]; ok {
+			return w
+		}
+		w := c15writersOf(fn)
+		wcache[fn] = w
+		return w
+	}
+	var walk func(fr *c15frame, v ssa.Value, d int)
+	walk = func(fr *c15frame, v ssa.Value, d int) {
 		if v == nil || si.seen[v] || d > 80 {
 			return
 		}
@@ -193,6 +619,11 @@ func (e *c15env) c15slice(fn *ssa.Function, v ssa.Value) *c15sliceInfo {
 			}
 		}
 		switch x := v.(type) {
+		case *ssa.Parameter, *ssa.FreeVar:
+			if up, ok := fr.bind(x); ok {
+				walk(fr.parent, up, d+1)
+			}
+			return
 		case *ssa.Phi:
 			if idom := x.Block().Idom(); idom != nil {
 				if ifi := blockIf(idom); ifi != nil {
@@ -209,23 +640,41 @@ func (e *c15env) c15slice(fn *ssa.Function, v ssa.Value) *c15sliceInfo {
 				}
 			}
 			for _, ed := range x.Edges {
-				walk(ed, d+1)
+				walk(fr, ed, d+1)
 			}
 			return
 		case *ssa.Alloc, *ssa.MakeSlice:
-			for _, w := range writers[v] {
-				walk(w, d+1)
+			for _, w := range writers(fr.fn)[v] {
+				walk(fr, w, d+1)
+			}
+		case *ssa.Extract:
+			if call, ok := x.Tuple.(*ssa.Call); ok {
+				if ch := e.child(fr, call); ch != nil {
+					for _, r := range c15rets(ch.fn) {
+						if x.Index < len(r.Results) {
+							walk(ch, r.Results[x.Index], d+1)
+						}
+					}
+				}
+			}
+		case *ssa.Call:
+			if ch := e.child(fr, x); ch != nil {
+				for _, r := range c15rets(ch.fn) {
+					if len(r.Results) == 1 {
+						walk(ch, r.Results[0], d+1)
+					}
+				}
 			}
 		}
 		if in, ok := v.(ssa.Instruction); ok {
 			for _, op := range in.Operands(nil) {
 				if *op != nil {
-					walk(*op, d+1)
+					walk(fr, *op, d+1)
 				}
 			}
 		}
 	}
-	walk(v, 0)
+	walk(root, v, 0)
 	return si
 }
 
@@ -272,39 +721,67 @@ func (si *c15sliceInfo) fieldsAll() map[*types.Var]bool {
 // ---------------------------------------------------------------------------
 // blob layout items
 
-type c15lin struct { // c + v (v nil = constant)
+// c15lin: c + the sum of the symbols named in v ("" = constant). Symbols are the canonical names of
+// SSA values (see c15sym); a sum is kept as the sorted, "+"-joined list of its symbols.
+type c15lin struct {
 	c  int64
-	v  ssa.Value
+	v  string
 	ok bool
 }
 
+var c15symIDs = map[ssa.Value]string{}
+
+// c15sym: the symbol standing for SSA value v.
+func c15sym(v ssa.Value) string {
+	if s, ok := c15symIDs[v]; ok {
+		return s
+	}
+	s := "s" + strconv.Itoa(len(c15symIDs)+1)
+	c15symIDs[v] = s
+	return s
+}
+
+func c15syms(v string) []string {
+	if v == "" {
+		return nil
+	}
+	return strings.Split(v, "+")
+}
+
 func c15add(a, b c15lin) c15lin {
-	if !a.ok || !b.ok || (a.v != nil && b.v != nil) {
+	if !a.ok || !b.ok {
 		return c15lin{}
 	}
-	v := a.v
-	if v == nil {
-		v = b.v
-	}
-	return c15lin{a.c + b.c, v, true}
+	all := append(c15syms(a.v), c15syms(b.v)...)
+	sort.Strings(all)
+	return c15lin{a.c + b.c, strings.Join(all, "+"), true}
 }
 
 func c15sub(a, b c15lin) c15lin {
 	if !a.ok || !b.ok {
 		return c15lin{}
 	}
-	if b.v == nil {
-		return c15lin{a.c - b.c, a.v, true}
+	rest := c15syms(a.v)
+	for _, s := range c15syms(b.v) {
+		found := false
+		for i, r := range rest {
+			if r == s {
+				rest = append(rest[:i:i], rest[i+1:]...)
+				found = true
+				break
+			}
+		}
+		if !found {
+			return c15lin{}
+		}
 	}
-	if a.v == b.v {
-		return c15lin{a.c - b.c, nil, true}
-	}
-	return c15lin{}
+	return c15lin{a.c - b.c, strings.Join(rest, "+"), true}
 }
 
 type c15item struct {
-	width  int64 // -1 = uint16-length-prefixed variable field
-	off    int64 // importer: absolute offset (fixed part), -1 otherwise
+	fr     *c15frame // the frame val and instr live in
+	width  int64     // -1 = uint16-length-prefixed variable field
+	off    int64     // importer: absolute offset (fixed part), -1 otherwise
 	val    ssa.Value
 	instr  ssa.Instruction
 	fields map[*types.Var]bool
@@ -338,48 +815,44 @@ func c15isBuiltin(v ssa.Value, name string) (*ssa.Call, bool) {
 	return call, true
 }
 
-// c15guardedLen: the constant k such that fn refuses (error return) unless len(s.f) == k.
-func (c *Ctx) c15guardedLen(fn *ssa.Function, f *types.Var) (int64, bool) {
-	for _, b := range fn.Blocks {
-		ifi := blockIf(b)
-		if ifi == nil {
-			continue
-		}
-		a := condAtom(ifi.Cond)
-		if a.Op != token.NEQ && a.Op != token.EQL {
-			continue
-		}
-		call, ok := c15isBuiltin(a.X, "len")
-		if !ok || !readsField(call.Call.Args[0], f) {
-			continue
-		}
-		k, isC := constInt(a.Y)
-		if !isC {
-			continue
-		}
-		neq := a.Op == token.NEQ
-		if a.Neg {
-			neq = !neq
-		}
-		bad := Edge{b, 1}
-		if neq {
-			bad = Edge{b, 0}
-		}
-		// the "different length" edge must not reach a success return
-		reach := false
-		for _, t := range c.successTargets(fn) {
-			if len(bad.To().Instrs) > 0 && findPath(Point{bad.To(), 0}, t.Target(), nil) != nil {
-				reach = true
+// c15guardedLen: the constant k such that fn refuses (error return) unless len(s.f) == k: a comparison of
+// len(s.f) with a constant somewhere in fn (or in a helper it calls) whose "equal" outcome every success
+// return passes.
+func (c *Ctx) c15guardedLen(e *c15env, fn *ssa.Function, f *types.Var) (int64, bool) {
+	cands := map[int64]bool{}
+	var scan func(g *ssa.Function, d int)
+	scan = func(g *ssa.Function, d int) {
+		allInstrs(g, func(_ *ssa.BasicBlock, _ int, in ssa.Instruction) {
+			if bo, ok := in.(*ssa.BinOp); ok && (bo.Op == token.EQL || bo.Op == token.NEQ) {
+				if call, ok := c15isBuiltin(bo.X, "len"); ok && readsField(call.Call.Args[0], f) {
+					if k, isC := constInt(bo.Y); isC {
+						cands[k] = true
+					}
+				}
 			}
-		}
-		if !reach {
+			if call, ok := in.(ssa.CallInstruction); ok && d < 2 {
+				if h := calleeFn(call); h != nil && h.Blocks != nil && fnPkg(h) == e.pkg && h != g {
+					scan(h, d+1)
+				}
+			}
+		})
+	}
+	scan(fn, 0)
+	var ks []int64
+	for k := range cands {
+		ks = append(ks, k)
+	}
+	sort.Slice(ks, func(i, j int) bool { return ks[i] < ks[j] })
+	for _, k := range ks {
+		if ok, _, _ := c.c15mustPass(e, fn, c15lenIs(f, k)); ok {
 			return k, true
 		}
 	}
 	return 0, false
 }
 
-// c15exportItems extracts the sequence of items ExportCryptoState writes into its blob buffer.
+// c15exportItems extracts the sequence of items ExportCryptoState writes into its blob buffer, following the
+// buffer into closures that capture it and same-package helpers that are handed it.
 func (c *Ctx) c15exportItems(e *c15env) (items []c15item, problems []string) {
 	fn := e.exp
 	// the buffer: success returns give buf.Bytes()
@@ -401,49 +874,60 @@ func (c *Ctx) c15exportItems(e *c15env) (items []c15item, problems []string) {
 	if cell == nil {
 		return nil, []string{"no success return"}
 	}
-	isBuf := func(v ssa.Value) bool {
+	// isBuf: v (of frame fr) denotes the buffer: the buffer value / a load of its cell in the root frame, a
+	// parameter bound to it, or a load of a free variable bound to its cell
+	var isBuf func(fr *c15frame, v ssa.Value) bool
+	isBuf = func(fr *c15frame, v ssa.Value) bool {
 		v = stripConv(v)
 		if v == cell {
 			return true
 		}
-		ld, ok := v.(*ssa.UnOp)
-		return ok && ld.Op == token.MUL && ld.X == cell
+		switch x := v.(type) {
+		case *ssa.UnOp:
+			if x.Op != token.MUL {
+				return false
+			}
+			if x.X == cell {
+				return true
+			}
+			if up, ok := fr.bind(x.X); ok {
+				return up == cell || isBuf(fr.parent, up)
+			}
+		case *ssa.Parameter, *ssa.FreeVar:
+			if up, ok := fr.bind(x); ok {
+				return isBuf(fr.parent, up)
+			}
+		}
+		return false
 	}
-	var block *ssa.BasicBlock
-	// item of one write call; inClosure: the closure's parameter (var16 pattern extraction)
-	one := func(f *ssa.Function, call ssa.CallInstruction, isB func(ssa.Value) bool) (*c15item, string) {
+	// item of one direct write call
+	one := func(fr *c15frame, call ssa.CallInstruction) (*c15item, string) {
 		cc := call.Common()
 		switch {
-		case !cc.IsInvoke() && len(cc.Args) >= 1 && isB(cc.Args[0]) && calleeObj(call) != nil && calleeObj(call).Pkg() != nil && calleeObj(call).Pkg().Path() == "bytes":
+		case !cc.IsInvoke() && len(cc.Args) >= 1 && isBuf(fr, cc.Args[0]) && calleeObj(call) != nil && calleeObj(call).Pkg() != nil && calleeObj(call).Pkg().Path() == "bytes":
 			switch calleeObj(call).Name() {
 			case "WriteString":
 				if s, ok := constString(cc.Args[1]); ok {
-					return &c15item{width: int64(len(s)), val: cc.Args[1], instr: call, konst: s}, ""
+					return &c15item{fr: fr, width: int64(len(s)), val: cc.Args[1], instr: call, konst: s}, ""
 				}
 				return nil, "WriteString of a non-constant"
 			case "WriteByte":
-				return &c15item{width: 1, val: cc.Args[1], instr: call}, ""
+				return &c15item{fr: fr, width: 1, val: cc.Args[1], instr: call}, ""
 			case "Write":
 				d := cc.Args[1]
 				if sl, ok := d.(*ssa.Slice); ok && sl.Low == nil && sl.High == nil {
 					if pt, ok := sl.X.Type().Underlying().(*types.Pointer); ok {
 						if arr, ok := pt.Elem().Underlying().(*types.Array); ok {
-							return &c15item{width: arr.Len(), val: d, instr: call}, ""
+							return &c15item{fr: fr, width: arr.Len(), val: d, instr: call}, ""
 						}
 					}
 				}
-				if _, fld, ok := fieldRead(d); ok && e.fields[fld] {
-					if k, ok := c.c15guardedLen(fn, fld); ok {
-						return &c15item{width: k, val: d, instr: call}, ""
-					}
-					return nil, "Write of " + fld.Name() + " whose length is not pinned by a refusal test"
-				}
-				return &c15item{width: -2, val: d, instr: call}, "" // raw data of unknown width (only legal inside the var16 closure)
+				return &c15item{fr: fr, width: -2, val: d, instr: call}, "" // raw data: width decided by the caller of one
 			case "Len", "Bytes", "Cap":
 				return nil, ""
 			}
 			return nil, "unmodelled bytes.Buffer method " + calleeObj(call).Name()
-		case c15calleeIs(call, "encoding/binary", "Write") && len(cc.Args) == 3 && isB(cc.Args[0]):
+		case c15calleeIs(call, "encoding/binary", "Write") && len(cc.Args) == 3 && isBuf(fr, cc.Args[0]):
 			if !c15isGlobalLoad(cc.Args[1], "encoding/binary", "BigEndian") {
 				return nil, "binary.Write with a byte order other than binary.BigEndian"
 			}
@@ -456,7 +940,7 @@ func (c *Ctx) c15exportItems(e *c15env) (items []c15item, problems []string) {
 				return nil, "binary.Write of a non-integer"
 			}
 			w := int64(types.SizesFor("gc", "amd64").Sizeof(b))
-			it := &c15item{width: w, val: mi.X, instr: call}
+			it := &c15item{fr: fr, width: w, val: mi.X, instr: call}
 			if k, ok := constInt(mi.X); ok {
 				it.konst = "int:" + strconv.FormatInt(k, 10)
 			}
@@ -464,94 +948,141 @@ func (c *Ctx) c15exportItems(e *c15env) (items []c15item, problems []string) {
 		}
 		return nil, ""
 	}
-	for _, b := range fn.Blocks {
-		for _, in := range b.Instrs {
-			call, ok := in.(ssa.CallInstruction)
+	// up: the value of an enclosing frame a helper's parameter stands for (identity otherwise)
+	up := func(fr *c15frame, v ssa.Value) (*c15frame, ssa.Value) {
+		for {
+			w, ok := fr.bind(v)
 			if !ok {
-				continue
+				return fr, v
 			}
-			var it *c15item
-			why := ""
-			if mc, ok := call.Common().Value.(*ssa.MakeClosure); ok {
-				g := mc.Fn.(*ssa.Function)
-				bi := -1
-				for i, bnd := range mc.Bindings {
-					if bnd == cell {
-						bi = i
-					}
-				}
-				if bi < 0 {
+			fr, v = fr.parent, w
+		}
+	}
+	// sameData: a and b denote the same byte slice (same value, or loads of the same field / conversions of the same value)
+	sameData := func(a, b ssa.Value) bool {
+		if a == b {
+			return true
+		}
+		_, fa, oka := fieldRead(a)
+		_, fb, okb := fieldRead(b)
+		if oka && okb && fa == fb {
+			return true
+		}
+		ca, oka2 := a.(*ssa.Convert)
+		cb, okb2 := b.(*ssa.Convert)
+		if oka2 && okb2 {
+			_, fa, oka = fieldRead(ca.X)
+			_, fb, okb = fieldRead(cb.X)
+			return ca.X == cb.X || (oka && okb && fa == fb)
+		}
+		return false
+	}
+	var collect func(fr *c15frame) []c15item
+	collect = func(fr *c15frame) []c15item {
+		var out []c15item
+		var block *ssa.BasicBlock
+		for _, b := range fr.fn.Blocks {
+			for _, in := range b.Instrs {
+				call, ok := in.(ssa.CallInstruction)
+				if !ok {
 					continue
 				}
-				fv := g.FreeVars[bi]
-				isB := func(v ssa.Value) bool {
-					ld, ok := stripConv(v).(*ssa.UnOp)
-					return ok && ld.Op == token.MUL && ld.X == ssa.Value(fv)
-				}
-				// the closure must be: binary.Write(buf, BigEndian, uint16(len(p))); buf.Write(p)
-				var inner []*c15item
-				for _, gb := range g.Blocks {
-					for _, gin := range gb.Instrs {
-						if gc, ok := gin.(ssa.CallInstruction); ok {
-							x, w := one(g, gc, isB)
-							if w != "" {
-								why = w
-							}
-							if x != nil {
-								inner = append(inner, x)
-							}
-						}
-					}
-				}
-				okShape := why == "" && len(g.Blocks) == 1 && len(inner) == 2 && len(g.Params) == 1 && inner[0].width == 2 && inner[1].width == -2 && inner[1].val == ssa.Value(g.Params[0])
-				if okShape {
-					cv, isConv := inner[0].val.(*ssa.Convert)
-					okShape = isConv
-					if isConv {
-						l, isLen := c15isBuiltin(cv.X, "len")
-						okShape = isLen && l.Call.Args[0] == ssa.Value(g.Params[0])
-					}
-				}
-				if !okShape {
-					problems = append(problems, "closure "+fnName(g)+" is not the uint16-length-prefixed writer (binary.Write(buf, BigEndian, uint16(len(b))); buf.Write(b)) "+why)
-					continue
-				}
-				it = &c15item{width: -1, val: call.Common().Args[0], instr: call}
-			} else {
-				it, why = one(fn, call, isBuf)
+				var got []c15item
+				it, why := one(fr, call)
 				if why != "" {
 					problems = append(problems, why)
 				}
-				if it != nil && it.width == -2 {
-					problems = append(problems, "a Write of data whose width is unknown")
-					it = nil
+				if it != nil {
+					got = append(got, *it)
+				} else if ch := e.child(fr, call); ch != nil {
+					// a closure that captures the buffer cell, or a helper that is handed the buffer
+					uses := false
+					for _, a := range call.Common().Args {
+						if isBuf(fr, a) {
+							uses = true
+						}
+					}
+					if mc, ok := call.Common().Value.(*ssa.MakeClosure); ok {
+						for _, bnd := range mc.Bindings {
+							if bnd == cell || isBuf(fr, bnd) {
+								uses = true
+							}
+						}
+					}
+					if uses {
+						got = collect(ch)
+					}
+				}
+				if len(got) == 0 {
+					continue
+				}
+				if block != nil && block != b {
+					problems = append(problems, "blob writes of "+fnName(fr.fn)+" are spread over several basic blocks")
+				}
+				block = b
+				out = append(out, got...)
+			}
+		}
+		return out
+	}
+	raw := collect(&c15frame{fn: fn})
+	// fold "uint16(len(x)) ; Write(x)" pairs into one uint16-length-prefixed item; pin the width of other raw writes
+	for i := 0; i < len(raw); i++ {
+		it := raw[i]
+		if it.width == 2 && i+1 < len(raw) && raw[i+1].width == -2 {
+			if cv, ok := it.val.(*ssa.Convert); ok {
+				if l, ok := c15isBuiltin(cv.X, "len"); ok {
+					_, lv := up(it.fr, l.Call.Args[0])
+					bfr, bv := up(raw[i+1].fr, raw[i+1].val)
+					if sameData(lv, bv) {
+						items = append(items, c15item{fr: bfr, width: -1, off: -1, val: bv, instr: raw[i+1].instr})
+						i++
+						continue
+					}
 				}
 			}
-			if it == nil {
+		}
+		if it.width == -2 {
+			vfr, v := up(it.fr, it.val)
+			if _, fld, ok := fieldRead(v); ok && e.fields[fld] {
+				if k, ok := c.c15guardedLen(e, fn, fld); ok {
+					it.fr, it.val, it.width = vfr, v, k
+				} else {
+					problems = append(problems, "Write of "+fld.Name()+" whose length is not pinned by a refusal test")
+					continue
+				}
+			} else {
+				problems = append(problems, "a Write of data whose width is unknown")
 				continue
 			}
-			if block != nil && block != b {
-				problems = append(problems, "blob writes are spread over several basic blocks")
-			}
-			block = b
-			it.off = -1
-			it.fields = e.c15slice(fn, it.val).fieldsAll()
-			items = append(items, *it)
 		}
+		it.off = -1
+		items = append(items, it)
+	}
+	for i := range items {
+		items[i].fields = e.c15sliceFr(items[i].fr, items[i].val).fieldsAll()
 	}
 	return
 }
 
-// c15importItems walks the success path of NewStreamWithCryptoState with a tiny abstract interpreter for the
-// offset cell and returns the sequence of blob reads (fixed offsets, then the uint16-prefixed closure reads).
-func (c *Ctx) c15importItems(e *c15env) (items []c15item, problems []string, blobCell ssa.Value, stores map[*types.Var][]*ssa.Store, unchecked []string) {
+// c15store: a store to a Stream field made by the importer or by a helper it hands blob-derived data to.
+type c15store struct {
+	st *ssa.Store
+	fr *c15frame
+}
+
+// c15importItems walks the success path of NewStreamWithCryptoState - into the closures and same-package
+// helpers that receive the blob or the running offset - with a tiny abstract interpreter for the offset cell
+// and returns the sequence of blob reads (fixed offsets, then the uint16-prefixed trailing fields), the
+// stores to Stream fields, and the variable reads whose upper bound was not compared with len(blob).
+func (c *Ctx) c15importItems(e *c15env) (items []c15item, problems []string, blobCell ssa.Value, stores map[*types.Var][]c15store, unchecked []string) {
 	fn := e.imp
-	stores = map[*types.Var][]*ssa.Store{}
+	stores = map[*types.Var][]c15store{}
 	if len(fn.Params) != 2 {
 		return nil, []string{"unexpected signature"}, nil, stores, nil
 	}
 	blob := ssa.Value(fn.Params[1])
-	// blob may live in a cell because the closure captures it
+	// blob may live in a cell because a closure captures it
 	blobCell = blob
 	for _, r := range *blob.Referrers() {
 		if st, ok := r.(*ssa.Store); ok && st.Val == blob {
@@ -560,278 +1091,384 @@ func (c *Ctx) c15importItems(e *c15env) (items []c15item, problems []string, blo
 			}
 		}
 	}
-	isBlob := func(v ssa.Value) bool {
-		if v == blob {
-			return true
-		}
-		ld, ok := v.(*ssa.UnOp)
-		return ok && ld.Op == token.MUL && ld.X == blobCell
+	root := &c15frame{fn: fn}
+	isBlob := func(fr *c15frame, v ssa.Value) bool { return c15isBlob(blob, blobCell, fr, v) }
+	isLenBlob := func(fr *c15frame, v ssa.Value) bool {
+		l, ok := c15isBuiltin(v, "len")
+		return ok && isBlob(fr, l.Call.Args[0])
 	}
-	allInstrs(fn, func(_ *ssa.BasicBlock, _ int, in ssa.Instruction) {
-		if st, ok := in.(*ssa.Store); ok {
-			if fa, ok := st.Addr.(*ssa.FieldAddr); ok {
-				if f := e.c15fieldOf(fa); f != nil {
-					stores[f] = append(stores[f], st)
-				}
-			}
-		}
-	})
-	cells := map[ssa.Value]c15lin{}
-	var eval func(v ssa.Value) c15lin
-	eval = func(v ssa.Value) c15lin {
+	blobDerived := func(fr *c15frame, v ssa.Value) bool {
+		return c.c15dep(fr, v, func(x ssa.Value) bool { return x == blob || x == blobCell }, 0)
+	}
+	cells := map[ssa.Value]c15lin{} // keyed by the root Alloc of the cell
+	var eval func(fr *c15frame, v ssa.Value) c15lin
+	eval = func(fr *c15frame, v ssa.Value) c15lin {
 		if k, ok := v.(*ssa.Const); ok {
 			if i, ok := constInt(k); ok {
-				return c15lin{i, nil, true}
+				return c15lin{i, "", true}
 			}
 		}
 		switch x := v.(type) {
 		case *ssa.UnOp:
 			if x.Op == token.MUL {
-				if l, ok := cells[x.X]; ok {
-					return l
+				if cell := fr.cellOf(x.X); cell != nil {
+					if l, ok := cells[cell]; ok {
+						return l
+					}
 				}
 			}
 		case *ssa.BinOp:
 			if x.Op == token.ADD {
-				return c15add(eval(x.X), eval(x.Y))
+				return c15add(eval(fr, x.X), eval(fr, x.Y))
 			}
 		case *ssa.Convert:
-			return eval(x.X)
-		}
-		return c15lin{0, v, true}
-	}
-	// closure analysis: relative layout [uint16 n][n bytes], off advanced by 2+n
-	closureOK := func(mc *ssa.MakeClosure) string {
-		g := mc.Fn.(*ssa.Function)
-		var offFV, blobFV ssa.Value
-		for i, b := range mc.Bindings {
-			if b == blobCell {
-				blobFV = g.FreeVars[i]
-			} else if _, tracked := cells[b]; tracked {
-				offFV = g.FreeVars[i]
+			return eval(fr, x.X)
+		case *ssa.Parameter:
+			if up, ok := fr.bind(x); ok {
+				return eval(fr.parent, up)
+			}
+		case *ssa.Extract:
+			// "field, off, err := readField(blob, off)": the offset a helper returns on success
+			if call, ok := x.Tuple.(*ssa.Call); ok {
+				if ch := e.child(fr, call); ch != nil {
+					var got *c15lin
+					same := true
+					for _, t := range c.successTargets(ch.fn) {
+						if x.Index >= len(t.Ret.Results) {
+							same = false
+							break
+						}
+						l := eval(ch, t.Ret.Results[x.Index])
+						if got == nil {
+							got = &l
+						} else if *got != l {
+							same = false
+						}
+					}
+					if same && got != nil && got.ok {
+						return *got
+					}
+				}
 			}
 		}
-		if offFV == nil || blobFV == nil {
-			return "the closure does not capture the blob and the offset"
+		return c15lin{0, c15sym(v), true}
+	}
+	type rd struct {
+		low, width c15lin
+		val        ssa.Value
+		instr      ssa.Instruction
+		fr         *c15frame
+		checked    bool // the upper bound was compared with len(blob) on the way here
+	}
+	var reads []rd
+	var bounds []c15lin // values known <= len(blob) on the path walked
+	canSucceed := func(g *ssa.Function, s *ssa.BasicBlock) bool {
+		for _, t := range c.successTargets(g) {
+			if len(s.Instrs) > 0 && findPath(Point{s, 0}, t.Target(), nil) != nil {
+				return true
+			}
 		}
-		saved := cells
-		cells = map[ssa.Value]c15lin{offFV: {0, nil, true}}
-		defer func() { cells = saved }()
-		gIsBlob := func(v ssa.Value) bool {
-			ld, ok := v.(*ssa.UnOp)
-			return ok && ld.Op == token.MUL && ld.X == blobFV
+		return false
+	}
+	relevant := func(fr *c15frame, call ssa.CallInstruction) bool {
+		for _, a := range call.Common().Args {
+			if isBlob(fr, a) {
+				return true
+			}
+			if cell := fr.cellOf(a); cell != nil {
+				if _, tracked := cells[cell]; tracked {
+					return true
+				}
+			}
 		}
-		type rd struct {
-			low, width c15lin
-			sl         *ssa.Slice
+		if mc, ok := call.Common().Value.(*ssa.MakeClosure); ok {
+			for _, bnd := range mc.Bindings {
+				if bnd == blobCell {
+					return true
+				}
+				if cell := fr.cellOf(bnd); cell != nil && cell == blobCell {
+					return true
+				}
+			}
 		}
-		var reads []rd
-		var bounds []c15lin // values known <= len(blob) on the path walked
-		isLenBlob := func(v ssa.Value) bool {
-			l, ok := c15isBuiltin(v, "len")
-			return ok && gIsBlob(l.Call.Args[0])
+		return false
+	}
+	walked := map[*ssa.BasicBlock]bool{}
+	visited := map[*ssa.Function]*c15frame{}
+	var walk func(fr *c15frame)
+	walk = func(fr *c15frame) {
+		g := fr.fn
+		if visited[g] == nil {
+			visited[g] = fr
 		}
 		cur := g.Blocks[0]
-		seen := map[*ssa.BasicBlock]bool{}
-		for cur != nil && !seen[cur] {
-			seen[cur] = true
+		var prev *ssa.BasicBlock
+		local := map[*ssa.BasicBlock]bool{} // a helper is walked once per call
+		for cur != nil && !local[cur] {
+			local[cur] = true
+			walked[cur] = true
 			var next *ssa.BasicBlock
 			for _, in := range cur.Instrs {
 				switch x := in.(type) {
 				case *ssa.Store:
-					if x.Addr == offFV {
-						cells[offFV] = eval(x.Val)
+					if cell := fr.cellOf(x.Addr); cell != nil && cell != blobCell {
+						if b, ok := cell.Type().Underlying().(*types.Pointer).Elem().Underlying().(*types.Basic); ok && b.Info()&types.IsInteger != 0 {
+							cells[cell] = eval(fr, x.Val)
+						}
 					}
 				case *ssa.Slice:
-					if gIsBlob(x.X) {
-						low := c15lin{0, nil, true}
-						if x.Low != nil {
-							low = eval(x.Low)
+					if !isBlob(fr, x.X) {
+						continue
+					}
+					low := c15lin{0, "", true}
+					if x.Low != nil {
+						low = eval(fr, x.Low)
+					}
+					if x.High == nil {
+						problems = append(problems, "open-ended slice of the blob at "+c.Pos(x.Pos()))
+						continue
+					}
+					high := eval(fr, x.High)
+					w := c15sub(high, low)
+					if !low.ok || !w.ok {
+						problems = append(problems, "blob read with an offset or width the rule cannot follow at "+c.Pos(x.Pos()))
+						continue
+					}
+					checked := false
+					for _, b := range bounds {
+						if b == high {
+							checked = true
 						}
-						if x.High == nil {
-							return "open-ended slice of the blob in the closure"
-						}
-						high := eval(x.High)
-						checked := false
-						for _, b := range bounds {
-							if b == high {
-								checked = true
-							}
-						}
-						if !checked {
-							unchecked = append(unchecked, "the closure slices the blob at "+c.Pos(x.Pos())+" without first testing the upper bound against len(blob)")
-						}
-						reads = append(reads, rd{low, c15sub(high, low), x})
+					}
+					if high.v != "" && !checked {
+						unchecked = append(unchecked, "the blob is sliced at "+c.Pos(x.Pos())+" without first testing the upper bound against len(blob)")
+					}
+					reads = append(reads, rd{low, w, x, x, fr, checked})
+				case *ssa.IndexAddr:
+					if !isBlob(fr, x.X) {
+						continue
+					}
+					i := eval(fr, x.Index)
+					if !i.ok || i.v != "" {
+						problems = append(problems, "blob index with a non-constant offset at "+c.Pos(x.Pos()))
+						continue
+					}
+					reads = append(reads, rd{i, c15lin{1, "", true}, x, x, fr, false})
+				case *ssa.Call:
+					if ch := e.child(fr, x); ch != nil && relevant(fr, x) {
+						walk(ch)
 					}
 				case *ssa.If:
-					var can []*ssa.BasicBlock
-					for _, s := range cur.Succs {
-						for _, t := range c.successTargets(g) {
-							if len(s.Instrs) > 0 && findPath(Point{s, 0}, t.Target(), nil) != nil {
-								can = append(can, s)
+					// a branch on a local boolean is a branch on the value it received on the way here
+					cond, t, f := x.Cond, cur.Succs[0], cur.Succs[1]
+					for {
+						u, ok := cond.(*ssa.UnOp)
+						if !ok || u.Op != token.NOT {
+							break
+						}
+						cond, t, f = u.X, f, t
+					}
+					if phi, ok := cond.(*ssa.Phi); ok && phi.Block() == cur && prev != nil {
+						for i, p := range cur.Preds {
+							if p == prev {
+								cond = phi.Edges[i]
+							}
+						}
+						for {
+							u, ok := cond.(*ssa.UnOp)
+							if !ok || u.Op != token.NOT {
 								break
+							}
+							cond, t, f = u.X, f, t
+						}
+					}
+					var can []*ssa.BasicBlock
+					if bv, isC := constBool(cond); isC {
+						if bv {
+							can = []*ssa.BasicBlock{t}
+						} else {
+							can = []*ssa.BasicBlock{f}
+						}
+					} else {
+						for _, s := range []*ssa.BasicBlock{t, f} {
+							if canSucceed(g, s) {
+								can = append(can, s)
 							}
 						}
 					}
 					if len(can) != 1 {
-						return "cannot follow the closure's success path"
+						if fr.parent != nil {
+							problems = append(problems, "cannot follow the success path of "+fnName(g))
+						}
+						break
 					}
 					next = can[0]
-					a := condAtom(x.Cond)
-					if !a.Neg && a.Op == token.GTR && isLenBlob(a.Y) && next == cur.Succs[1] {
-						bounds = append(bounds, eval(a.X))
-					}
-					if !a.Neg && a.Op == token.LEQ && isLenBlob(a.Y) && next == cur.Succs[0] {
-						bounds = append(bounds, eval(a.X))
+					a := condAtom(cond)
+					if !a.Neg && a.Y != nil && isLenBlob(fr, a.Y) {
+						if (a.Op == token.GTR && next == f) || (a.Op == token.LEQ && next == t) {
+							bounds = append(bounds, eval(fr, a.X))
+						}
 					}
 				case *ssa.Jump:
 					next = cur.Succs[0]
 				}
 			}
-			cur = next
+			prev, cur = cur, next
 		}
-		if len(reads) != 2 {
-			return "the closure does not read exactly a length and a body from the blob"
-		}
-		var n ssa.Value
-		for _, r := range *reads[0].sl.Referrers() {
-			if call, ok := r.(*ssa.Call); ok && c15calleeIs(call, "encoding/binary", "Uint16") && c15isGlobalLoad(call.Call.Args[0], "encoding/binary", "BigEndian") {
-				n = call
-			}
-		}
-		z := c15lin{0, nil, true}
-		two := c15lin{2, nil, true}
-		if n == nil || reads[0].low != z || reads[0].width != two {
-			return "the closure does not decode a big-endian uint16 length at the current offset"
-		}
-		if reads[1].low != two || reads[1].width != (c15lin{0, n, true}) {
-			return "the closure's body read is not [off+2, off+2+n)"
-		}
-		if cells[offFV] != (c15lin{2, n, true}) {
-			return "the closure does not advance the offset by 2+n"
-		}
-		// the body must be what the closure returns
-		for _, t := range c.successTargets(g) {
-			if !mustDepend(g, t.Ret.Results[0], func(v ssa.Value) bool { return v == ssa.Value(reads[1].sl) }) {
-				return "the closure does not return the body it read"
-			}
-		}
-		return ""
 	}
-	walked := map[*ssa.BasicBlock]bool{}
-	cur := fn.Blocks[0]
-	fixedDone := false
-	for cur != nil && !walked[cur] {
-		walked[cur] = true
-		var next *ssa.BasicBlock
-		for _, in := range cur.Instrs {
+	walk(root)
+	// no blob read may live in a block that was not walked but can still reach a success return
+	readsBlob := func(fr *c15frame) bool {
+		found := false
+		allInstrs(fr.fn, func(_ *ssa.BasicBlock, _ int, in ssa.Instruction) {
+			switch x := in.(type) {
+			case *ssa.Slice:
+				found = found || isBlob(fr, x.X)
+			case *ssa.IndexAddr:
+				found = found || isBlob(fr, x.X)
+			}
+		})
+		return found
+	}
+	var vfns []*ssa.Function
+	for g := range visited {
+		vfns = append(vfns, g)
+	}
+	sort.Slice(vfns, func(i, j int) bool { return fnName(vfns[i]) < fnName(vfns[j]) })
+	for _, g := range vfns {
+		fr := visited[g]
+		for _, b := range g.Blocks {
+			if walked[b] || !canSucceed(g, b) {
+				continue
+			}
+			for _, in := range b.Instrs {
+				bad := false
+				switch x := in.(type) {
+				case *ssa.Slice:
+					bad = isBlob(fr, x.X)
+				case *ssa.IndexAddr:
+					bad = isBlob(fr, x.X)
+				case *ssa.Call:
+					if ch := e.child(fr, x); ch != nil && relevant(fr, x) && readsBlob(ch) {
+						bad = true
+					}
+				}
+				if bad {
+					problems = append(problems, "blob read outside the straight-line prefix at "+c.Pos(in.Pos()))
+				}
+			}
+		}
+	}
+	// fold the reads into items: fixed reads, and [uint16 n][n bytes] pairs; a trailing field starts where the
+	// previous read ended
+	contiguous := func(i int) {
+		if i == 0 {
+			return
+		}
+		p := reads[i-1]
+		if end := c15add(p.low, p.width); end != reads[i].low {
+			problems = append(problems, "the trailing field read at "+c.Pos(reads[i].val.Pos())+" does not start where the previous item ended (the offset is not advanced by what was read)")
+		}
+	}
+	for i := 0; i < len(reads); i++ {
+		r := reads[i]
+		if r.low.v == "" && r.width.v == "" {
+			// a big-endian uint16 length at a fixed offset followed by its body is a trailing field too
+			if n := c15lenPrefix(r.val); n != "" && r.width.c == 2 && i+1 < len(reads) {
+				nx := reads[i+1]
+				if nx.low == (c15lin{r.low.c + 2, "", true}) && nx.width == (c15lin{0, n, true}) {
+					if !r.checked {
+						unchecked = append(unchecked, "the blob is sliced at "+c.Pos(r.val.Pos())+" (length prefix of a trailing field) without first testing the upper bound against len(blob)")
+					}
+					contiguous(i)
+					items = append(items, c15varItem(nx.fr, nx.val, nx.instr))
+					i++
+					continue
+				}
+			}
+			items = append(items, c15item{fr: r.fr, width: r.width.c, off: r.low.c, val: r.val, instr: r.instr})
+			continue
+		}
+		n := c15lenPrefix(r.val)
+		if n == "" || r.width != (c15lin{2, "", true}) || i+1 >= len(reads) {
+			problems = append(problems, "blob read at a variable offset that is not a big-endian uint16 length followed by its body at "+c.Pos(r.val.Pos()))
+			continue
+		}
+		nx := reads[i+1]
+		if nx.low != (c15lin{r.low.c + 2, r.low.v, true}) || nx.width != (c15lin{0, n, true}) {
+			problems = append(problems, "the body of the trailing field read at "+c.Pos(nx.val.Pos())+" is not [off+2, off+2+n)")
+			continue
+		}
+		contiguous(i)
+		items = append(items, c15varItem(nx.fr, nx.val, nx.instr))
+		i++
+	}
+	// a trailing field read by a helper or closure must be handed back: the item's value becomes what the
+	// call in the importer returns
+	for i := range items {
+		it := &items[i]
+		if it.width != -1 || it.fr.parent == nil {
+			continue
+		}
+		cur := it.val
+		okRet := true
+		for f := it.fr; f.parent != nil && okRet; f = f.parent {
+			want := cur
+			for _, t := range c.successTargets(f.fn) {
+				if len(t.Ret.Results) == 0 || !mustDepend(f.fn, t.Ret.Results[0], func(v ssa.Value) bool { return v == want }) {
+					okRet = false
+				}
+			}
+			sv, isVal := f.site.(ssa.Value)
+			if !isVal {
+				okRet = false
+				break
+			}
+			cur = extractN(sv, 0)
+			if cur == nil {
+				okRet = false
+			}
+		}
+		if !okRet {
+			problems = append(problems, "the trailing-field reader does not return the body it read ("+c.Pos(it.val.Pos())+")")
+			continue
+		}
+		it.val, it.instr, it.fr = cur, it.fr.rootSite().(ssa.Instruction), root
+	}
+	// stores to Stream fields: in the importer, its closures, and helpers that are handed blob-derived data
+	var collect func(fr *c15frame)
+	seenFn := map[*ssa.Function]bool{}
+	collect = func(fr *c15frame) {
+		if seenFn[fr.fn] {
+			return
+		}
+		seenFn[fr.fn] = true
+		allInstrs(fr.fn, func(_ *ssa.BasicBlock, _ int, in ssa.Instruction) {
 			switch x := in.(type) {
 			case *ssa.Store:
-				if al, ok := x.Addr.(*ssa.Alloc); ok && al != blobCell {
-					if b, ok := al.Type().Underlying().(*types.Pointer).Elem().Underlying().(*types.Basic); ok && b.Info()&types.IsInteger != 0 {
-						cells[al] = eval(x.Val)
+				if fa, ok := x.Addr.(*ssa.FieldAddr); ok {
+					if f := e.c15fieldOf(fa); f != nil {
+						stores[f] = append(stores[f], c15store{x, fr})
 					}
-				}
-			case *ssa.Slice:
-				if !isBlob(x.X) {
-					continue
-				}
-				low := c15lin{0, nil, true}
-				if x.Low != nil {
-					low = eval(x.Low)
-				}
-				if x.High == nil {
-					problems = append(problems, "open-ended slice of the blob at "+c.Pos(x.Pos()))
-					continue
-				}
-				w := c15sub(eval(x.High), low)
-				if !low.ok || low.v != nil || !w.ok || w.v != nil || fixedDone {
-					problems = append(problems, "blob read with a non-constant offset or width at "+c.Pos(x.Pos()))
-					continue
-				}
-				items = append(items, c15item{width: w.c, off: low.c, val: x, instr: x})
-			case *ssa.IndexAddr:
-				if !isBlob(x.X) {
-					continue
-				}
-				i := eval(x.Index)
-				if !i.ok || i.v != nil || fixedDone {
-					problems = append(problems, "blob index with a non-constant offset at "+c.Pos(x.Pos()))
-					continue
-				}
-				items = append(items, c15item{width: 1, off: i.c, val: x, instr: x})
-			case *ssa.Call:
-				if mc, ok := x.Call.Value.(*ssa.MakeClosure); ok {
-					uses := false
-					for _, b := range mc.Bindings {
-						if b == blobCell {
-							uses = true
-						}
-					}
-					if !uses {
-						continue
-					}
-					if why := closureOK(mc); why != "" {
-						problems = append(problems, why)
-						continue
-					}
-					fixedDone = true
-					items = append(items, c15item{width: -1, off: -1, val: extractN(x, 0), instr: x})
-				}
-			case *ssa.If:
-				var can []*ssa.BasicBlock
-				for _, s := range cur.Succs {
-					for _, t := range c.successTargets(fn) {
-						if len(s.Instrs) > 0 && findPath(Point{s, 0}, t.Target(), nil) != nil {
-							can = append(can, s)
-							break
-						}
-					}
-				}
-				if len(can) == 1 {
-					next = can[0]
-				}
-			case *ssa.Jump:
-				next = cur.Succs[0]
-			}
-		}
-		cur = next
-	}
-	// no blob read may live in a block that was not walked but can still reach a success return
-	for _, b := range fn.Blocks {
-		if walked[b] {
-			continue
-		}
-		live := false
-		for _, t := range c.successTargets(fn) {
-			if len(b.Instrs) > 0 && findPath(Point{b, 0}, t.Target(), nil) != nil {
-				live = true
-			}
-		}
-		if !live {
-			continue
-		}
-		for _, in := range b.Instrs {
-			switch x := in.(type) {
-			case *ssa.Slice:
-				if isBlob(x.X) {
-					problems = append(problems, "blob read outside the straight-line prefix at "+c.Pos(x.Pos()))
-				}
-			case *ssa.IndexAddr:
-				if isBlob(x.X) {
-					problems = append(problems, "blob read outside the straight-line prefix at "+c.Pos(x.Pos()))
 				}
 			case *ssa.Call:
-				if mc, ok := x.Call.Value.(*ssa.MakeClosure); ok {
-					for _, bnd := range mc.Bindings {
-						if bnd == blobCell {
-							problems = append(problems, "blob read (closure) outside the straight-line prefix at "+c.Pos(x.Pos()))
-						}
+				ch := e.child(fr, x)
+				if ch == nil {
+					return
+				}
+				dep := relevant(fr, x)
+				for _, a := range x.Call.Args {
+					if !dep && blobDerived(fr, a) {
+						dep = true
 					}
 				}
+				if dep {
+					collect(ch)
+				}
 			}
-		}
+		})
 	}
+	collect(root)
 	// destination fields per item
 	for i := range items {
 		items[i].fields = map[*types.Var]bool{}
@@ -841,7 +1478,7 @@ func (c *Ctx) c15importItems(e *c15env) (items []c15item, problems []string, blo
 		}
 		for f, sts := range stores {
 			for _, st := range sts {
-				if mustDepend(fn, st.Val, func(v ssa.Value) bool { return v == iv }) {
+				if c.c15dep(st.fr, st.st.Val, func(v ssa.Value) bool { return v == iv }, 0) {
 					items[i].fields[f] = true
 				}
 			}
@@ -876,6 +1513,48 @@ func (c *Ctx) c15importItems(e *c15env) (items []c15item, problems []string, blo
 	return
 }
 
+// c15isBlob: v (of frame fr) denotes the importer's blob: the parameter, a load of the cell a closure
+// captured it in, or a helper parameter / free variable bound to one of those.
+func c15isBlob(blob, blobCell ssa.Value, fr *c15frame, v ssa.Value) bool {
+	if v == blob {
+		return true
+	}
+	switch x := v.(type) {
+	case *ssa.UnOp:
+		if x.Op != token.MUL {
+			return false
+		}
+		if x.X == blobCell {
+			return true
+		}
+		if cell := fr.cellOf(x.X); cell != nil {
+			return cell == blobCell
+		}
+	case *ssa.Parameter, *ssa.FreeVar:
+		if up, ok := fr.bind(x); ok {
+			return c15isBlob(blob, blobCell, fr.parent, up)
+		}
+	}
+	return false
+}
+
+func c15varItem(fr *c15frame, val ssa.Value, instr ssa.Instruction) c15item {
+	return c15item{fr: fr, width: -1, off: -1, val: val, instr: instr}
+}
+
+// c15lenPrefix: sl (a two-byte slice of the blob) is decoded as a big-endian uint16: the symbol of the decoded
+// length (eval looks through conversions, so widths are expressed in terms of the Uint16 call), else "".
+func c15lenPrefix(sl ssa.Value) string {
+	for _, r := range *sl.Referrers() {
+		call, ok := r.(*ssa.Call)
+		if !ok || !c15calleeIs(call, "encoding/binary", "Uint16") || !c15isGlobalLoad(call.Call.Args[0], "encoding/binary", "BigEndian") {
+			continue
+		}
+		return c15sym(call)
+	}
+	return ""
+}
+
 // c15bitOfStore: the store assigns (x & k) != 0 (or == k): returns k, else -1.
 func c15bitOfStore(st *ssa.Store) int64 {
 	cmp, ok := st.Val.(*ssa.BinOp)
@@ -898,52 +1577,4 @@ func c15bitOfStore(st *ssa.Store) int64 {
 		return k
 	}
 	return -1
-}
-
-// c15cleanEdges: the edges of fn on which Stream field f is known "clean": false, 0, nil or of length 0.
-func c15cleanEdges(fn *ssa.Function, f *types.Var) (clean, dirty []Edge) {
-	off, on := fieldCondEdges(fn, f)
-	clean = append(clean, off...)
-	dirty = append(dirty, on...)
-	for _, b := range fn.Blocks {
-		ifi := blockIf(b)
-		if ifi == nil {
-			continue
-		}
-		a := condAtom(ifi.Cond)
-		if a.Op == token.ILLEGAL {
-			continue
-		}
-		x := stripConv(a.X)
-		if l, ok := c15isBuiltin(x, "len"); ok {
-			x = l.Call.Args[0]
-		} else if isNilConst(a.Y) {
-			continue // handled by fieldCondEdges
-		}
-		if !readsField(x, f) {
-			continue
-		}
-		k, isC := constInt(a.Y)
-		if !isC || k != 0 {
-			continue
-		}
-		var zeroOnTrue bool
-		switch a.Op {
-		case token.EQL, token.LEQ:
-			zeroOnTrue = true
-		case token.NEQ, token.GTR:
-			zeroOnTrue = false
-		default:
-			continue
-		}
-		if a.Neg {
-			zeroOnTrue = !zeroOnTrue
-		}
-		if zeroOnTrue {
-			clean, dirty = append(clean, Edge{b, 0}), append(dirty, Edge{b, 1})
-		} else {
-			clean, dirty = append(clean, Edge{b, 1}), append(dirty, Edge{b, 0})
-		}
-	}
-	return
 }
